@@ -18,6 +18,13 @@ Round 4:   spec/MC_TransK.tla -- the correlated-k opacity family (opacity_method
            spec/MC_TransRoutes.tla -- the three public entry points x grid sizes on ONE long-lived model
            (mutants "stale-size", "accumulate", "keep-single" refuted by TLC); every exported history is
            replayed and every returned entry compared with the documented integral of its own absorbers.
+Round 5:   spec/MC_TransAbund.tla -- the MAGNITUDE of the mixing ratio (decades 1e-20 .. 1, uniform or in some layers
+           only) with the cross-section scaled inversely, so that the optical depth is of order one at every
+           magnitude (variant "floor" refuted by TLC); vectors bound to the real AbsorptionContribution, the
+           exported classes realised on whole-model runs.
+           spec/MC_TransRoutes.tla -- how a boolean option is SPELT (new_path_method, cutoff_grid: True / numpy.bool_ /
+           1 / 1.0 / non-empty string and their falsy counterparts; variant "identity" refuted by TLC); every
+           exported single call replayed, entries AND model.path_length compared with the geometry asked for.
 """
 import json
 import math
@@ -39,6 +46,11 @@ CUT_SPEC = 14      # spec: exit when min tau >= 15 (integers, ln 2 units)  <=>  
 KCAP = 8           # spec/Transmission.tla KCap: 2^-t is exported exactly up to t = KCap, bounded beyond
 GASES = ['H2O', 'CH4']
 WN = np.array([1000.0, 2000.0, 3000.0, 4000.0, 5000.0])
+# the spellings of a boolean option (spec/MC_TransRoutes.tla Spellings)
+SPELL = {'True': True, 'False': False, 'np.True_': np.bool_(True), 'np.False_': np.bool_(False), '1': 1, '0': 0,
+         '1.0': 1.0, '0.0': 0.0, 'nonempty': 'new', 'empty': ''}
+AB_ORD = 4         # spec/MC_TransAbund.tla AbOrd
+AB_MANT = 0.5      # Mant / 10
 
 
 # ----------------------------------------------------------------------------
@@ -76,6 +88,12 @@ def calibrate(vecs):
                 for w in range(len(kk[0][0])):
                     if kd_cell(kk, wts, Lr, j, w, lo) != frac(out['lo'][j][w]) or kd_cell(kk, wts, Lr, j, w, hi) != frac(out['hi'][j][w]):
                         raise Machinery('oracle calibration failed (kd) on %r layer %d wn %d' % (inp, j, w))
+        elif fam == 'ab':
+            nl = len(inp['x'])
+            Lr = [[2 * (j + 1) + 3 * (i + 1) for i in range(nl - j)] for j in range(nl)]      # MC_TransAbund LTab
+            tau, full, _ = tau_layers([[[x] for x in inp['x']]], None, Lr, 10 ** 9, zero=0)
+            if [t[0] for t in full] != out:
+                raise Machinery('oracle calibration failed (ab) on %r: %r vs %r' % (inp, full, out))
         elif fam == 'abs':
             r = [Fraction(x) for x in inp['r']]
             T = [[Fraction(1, 2 ** t)] for t in inp['t']]
@@ -258,9 +276,107 @@ def vec_kd(ctx, v):
     ctx.verdict('ktable_transmittance', ok, cls='kernel:ktable:%s' % ('saturated' if sat else 'exact'), detail=detail, vector=v)
 
 
+_abmodels = {}
+
+
+def ab_mix(e):
+    return AB_MANT * 10.0 ** (-e)
+
+
+def vec_ab(ctx, v):
+    """spec vector of the abundance-magnitude family -> the real AbsorptionContribution (prepare + numba kernel)
+    inside the real path_integral: layer k holds H2O at the mixing ratio of decade e[k] and the fixture serves a
+    cross-section such that cross-section x mixing ratio x density is the order-one x[k] of the vector."""
+    from taurex.cache import OpacityCache
+    inp, out = v['inp'], v['out']
+    nl = len(inp['x'])
+    if nl not in _abmodels:
+        from taurex.data.profiles.chemistry import TaurexChemistry
+        from taurex.data.profiles.chemistry.gas.arraygas import ArrayGas
+        from taurex.contributions import AbsorptionContribution
+        chem = TaurexChemistry(fill_gases=['H2', 'He'], ratio=0.17)
+        gas = ArrayGas('H2O', mix_ratio_array=[1e-4] * nl)
+        chem.addGas(gas)
+        reset_caches()
+        OpacityCache().add_opacity(LayerOpacity('H2O', WN, lambda T, P: np.zeros(len(WN))))
+        m = make_transmission(nl, chemistry=chem)
+        m.add_contribution(AbsorptionContribution())
+        m.build()
+        _abmodels[nl] = (m, gas)
+    m, gas = _abmodels[nl]
+    mixin = np.array([ab_mix(e) for e in inp['e']])
+    gas._mix_ratio_array = mixin.copy()
+    ok, detail = True, ''
+    ltab = [np.array([2 * (j + 1) + 3 * (i + 1) for i in range(nl - j)], dtype=float) * U for j in range(nl)]
+    m.compute_path_length_old = lambda dz, _l=ltab: _l
+    try:
+        m.initialize_profiles()
+        inject_geometry(m, [50 + 2 * i for i in range(nl + 1)])
+        dens = np.asarray(m.densityProfile, dtype=float)
+        logp = np.log(np.asarray(m.pressureProfile, dtype=float))
+        mix = np.asarray(m.chemistry.get_gas_mix_profile('H2O'), dtype=float)
+        if mix.shape != (nl,) or not np.allclose(mix, mixin, rtol=1e-12, atol=0):
+            raise Machinery('fixture: the chemistry did not take the mixing ratios %r (has %r)' % (mixin.tolist(), mix.tolist()))
+        sig = np.array(inp['x'], dtype=float) * LN2 / U / (dens * mix)
+        reset_caches()
+        OpacityCache().add_opacity(LayerOpacity('H2O', WN, lambda T, P: np.full(len(WN), sig[int(np.argmin(np.abs(logp - math.log(P))))])))
+        wn = WN[:2]
+        for c in m.contribution_list:
+            c.prepare(m, wn)
+        _, T = m.path_integral(wn, False)
+        T = np.asarray(T, dtype=float)
+        if T.shape != (nl, 2):
+            ok, detail = False, 'transmittance array of shape %r' % (T.shape,)
+        for j in range(nl if ok else 0):
+            for w in range(2):
+                got = -math.log2(T[j, w]) if T[j, w] > 0 else float('inf')
+                # x (sigma*mix*dens) is rebuilt from three roundings, the kernel adds nl products: a few ulp
+                if not abs(got - out[j]) <= 1e-12 * max(1.0, out[j]) + 1e-13:
+                    ok, detail = False, 'layer %d wn %d: tau/ln2 = %r, spec %r (mixing ratios %r)' % (j, w, got, out[j], mixin.tolist())
+                    break
+            if not ok:
+                break
+    except Machinery:
+        raise
+    except Exception as e:   # noqa
+        ok, detail = False, '%s: %s' % (type(e).__name__, e)
+    finally:
+        del m.compute_path_length_old
+    es = sorted(set(inp['e']) - {AB_ORD})
+    ctx.verdict('abundance_magnitude', ok, cls='kernel:abund:1e-%d:%s' % (es[0] if es else AB_ORD, 'uniform' if len(set(inp['e'])) == 1 else 'layers'),
+                detail=detail, vector=v)
+
+
 # ----------------------------------------------------------------------------
 # binding B: whole-model runs
 # ----------------------------------------------------------------------------
+
+def run_abund(ctx, classes):
+    """every exported abundance class (exponent pattern over the blocks of layers) on a random whole-model scenario:
+    one gas takes the pattern (cross-section scaled inversely), everything else is drawn as usual."""
+    rng = random.Random(ctx.seed * 32452843 + 11)
+    events, evmeta = [], []
+    n = 0
+    for pat in classes:
+        for _ in range(20):
+            nl = rng.choice([2, 3, 4, 6, 9, 12])
+
+            def extra(r, sp, _nl=nl):
+                g = r.randrange(sp['ngas'])
+                mag = list(sp['mag'])
+                mag[g] = r.choice([-29, -27, -25, -23])        # with the ordinary abundance: optical depths around one somewhere
+                return dict(mag=mag, abexp=dict(gas=g, e=[pat[min(len(pat) - 1, (k * len(pat)) // _nl)] for k in range(_nl)]))
+            m, spec = build_random_model(rng, nl, extra=extra)
+            if not unbound(m):
+                break
+        else:
+            raise Machinery('no bound atmosphere for abundance class %r' % (pat,))
+        spec['_cls'] = ':abund'
+        e2e_one(ctx, m, spec, events, evmeta, rng, paired=False)
+        n += 1
+    ctx.note('abundance magnitude: %d exported classes realised on whole-model runs' % n)
+    return n
+
 
 def k_extra(rng, spec):
     """the correlated-k dimension of a whole-model scenario: number / kind of quadrature points, which gas
@@ -299,6 +415,10 @@ def build_random_model(rng, nl, scale=1.0, spec=None, extra=None):
         )
         if extra:
             spec.update(extra(rng, spec) if callable(extra) else extra)
+        if 'flag' not in spec:
+            # how the path-method option is spelt: any spelling of the drawn truth value (own stream: the draws of
+            # the scenarios are unchanged by it)
+            spec['flag'] = random.Random(repr(spec['mix'])).choice(sorted(k for k, v in SPELL.items() if bool(v) == spec['new']))
     kt = bool(spec.get('kt'))
     if kt:
         KMODE.enable(GASES, WN)        # opacity_method = ktables; the chemistry finds both gases on the k-table path
@@ -315,12 +435,24 @@ def build_random_model(rng, nl, scale=1.0, spec=None, extra=None):
         kinfo = dict(wts=wq, gfac={g: ([10.0 ** (spec['gspread'] * (x - 0.5)) for x in xq] if i == spec['kgas'] % spec['ngas']
                                         else [1.0] * len(xq)) for i, g in enumerate(names)})
 
+    # round 5: the magnitude of the mixing ratio.  abexp = dict(gas, e): gas `gas` has, in layer k, the mixing ratio
+    # AB_MANT x 10^-e[k] (e[k] = AB_ORD: the ordinary one, spec['mix']) and a cross-section larger by the same factor
+    ab = spec.get('abexp')
+    abmix, absc, hold = None, None, {}
+    if ab:
+        base = spec['mix'][ab['gas']]
+        abmix = [base if e == AB_ORD else AB_MANT * 10.0 ** (-e) for e in ab['e']]
+        absc = [base / x for x in abmix]
+
     def mk(idx):
         def f(T, P):
             if spec['mag'][idx] is None:
                 return np.zeros(len(WN))
             # smooth dependence on pressure so every layer has its own exact value
-            return (10.0 ** spec['mag'][idx]) * scale * (P / 1e3) ** spec['slope'][idx] * np.array(spec['shape'][idx]) * 1e4
+            v = (10.0 ** spec['mag'][idx]) * scale * (P / 1e3) ** spec['slope'][idx] * np.array(spec['shape'][idx]) * 1e4
+            if ab and idx == ab['gas']:
+                v = v * absc[int(np.argmin(np.abs(hold['logP'] - math.log(P))))]
+            return v
         return f
     xs = {}
     cia_rows = {}
@@ -337,12 +469,17 @@ def build_random_model(rng, nl, scale=1.0, spec=None, extra=None):
         cia_rows['H2-He'] = tab[0].copy()
     chem = TaurexChemistry(fill_gases=['H2', 'He'], ratio=0.17)
     for i, g in enumerate(names):
-        chem.addGas(ConstantGas(g, mix_ratio=spec['mix'][i]))
+        if ab and i == ab['gas']:
+            from taurex.data.profiles.chemistry.gas.arraygas import ArrayGas
+            chem.addGas(ArrayGas(g, mix_ratio_array=list(abmix)))
+        else:
+            chem.addGas(ConstantGas(g, mix_ratio=spec['mix'][i]))
     temp = Isothermal(T=spec['temps'][0]) if spec['iso'] else TemperatureArray(tp_array=spec['temps'])
     m = make_transmission(nl, chemistry=chem, temperature=temp,
                           planet=Planet(planet_mass=spec['mass'], planet_radius=spec['radius']),
                           star=BlackbodyStar(temperature=5000, radius=spec['rstar']),
-                          pmin=spec['pmax'] / 10 ** spec['pspan'], pmax=spec['pmax'], new_method=spec['new'])
+                          pmin=spec['pmax'] / 10 ** spec['pspan'], pmax=spec['pmax'],
+                          new_method=SPELL[spec['flag']] if 'flag' in spec else spec['new'])
     m.add_contribution(AbsorptionContribution())
     if spec['rayleigh']:
         m.add_contribution(RayleighContribution())
@@ -359,6 +496,7 @@ def build_random_model(rng, nl, scale=1.0, spec=None, extra=None):
             m.add_contribution(GridTableContribution('Table', WN, sig2))
     added = list(m.contribution_list)       # what was REGISTERED (all of the same evaluation order: build() keeps it)
     m.build()
+    hold['logP'] = np.log(np.asarray(m.pressureProfile, dtype=float))
     m._verif_xs = xs
     m._verif_added = added
     m._verif_k = kinfo
@@ -542,7 +680,7 @@ def run_e2e(ctx, nruns, max_layers, nk=0):
 
 
 def e2e_one(ctx, m, spec, events, evmeta, rng, paired=True):
-    cls = '%s:%dL%s' % ('new' if spec['new'] else 'old', 1 if spec['nl'] < 5 else 2, ':ktable' if spec.get('kt') else '')
+    cls = '%s:%dL%s%s' % ('new' if spec['new'] else 'old', 1 if spec['nl'] < 5 else 2, ':ktable' if spec.get('kt') else '', spec.get('_cls', ''))
     vec = dict(e2e=spec)
     try:
         grid, depth, T, _ = m.model()
@@ -666,17 +804,19 @@ def routes_extra(kt):
     return extra
 
 
-def call_route(m, route, win):
-    """-> (returned grid, [(contribution name | None, component name | None, depth, transmittance), ...])"""
+def call_route(m, route, win, cut='True'):
+    """-> (returned grid, [(contribution name | None, component name | None, depth, transmittance), ...]);
+    cut = how cutoff_grid is spelt"""
     g = ROUTE_WINS[win]
     g = None if g is None else g.copy()
+    kw = {} if cut == 'True' else dict(cutoff_grid=SPELL[cut])
     if route == 'model':
-        grid, depth, T, _ = m.model(wngrid=g)
+        grid, depth, T, _ = m.model(wngrid=g, **kw)
         return grid, [(None, None, depth, T)]
     if route == 'contrib':
-        grid, per = m.model_contrib(wngrid=g)
+        grid, per = m.model_contrib(wngrid=g, **kw)
         return grid, [(name, None, v[0], v[1]) for name, v in per.items()]
-    grid, per = m.model_full_contrib(wngrid=g)
+    grid, per = m.model_full_contrib(wngrid=g, **kw)
     return grid, [(name, comp[0], comp[1], comp[2]) for name, lst in per.items() for comp in lst]
 
 
@@ -731,10 +871,10 @@ def replay_walk(ctx, spec, walk, oracle, label):
     trail, allok = [], True
     for step in walk:
         route, win = step['route'], step['win']
-        trail.append('%s@%d' % (route, win))
+        trail.append('%s@%d%s' % (route, win, '' if step.get('cut', 'True') == 'True' else ':cutoff_grid=' + step['cut']))
         ok, detail = True, ''
         try:
-            grid, entries = call_route(m, route, win)
+            grid, entries = call_route(m, route, win, step.get('cut', 'True'))
             grid = np.asarray(grid, dtype=float)
             cols = [int(np.argmin(np.abs(WN - x))) for x in grid]
             if len(grid) != step['pts'] or any(WN[c] != x for c, x in zip(cols, grid)):
@@ -758,6 +898,15 @@ def replay_walk(ctx, spec, walk, oracle, label):
                     if good != n:
                         ok, detail = False, 'entry %s: the documented integral of its own absorbers at %d of %d wavenumbers (%s)' % (
                             '/'.join(str(x) for x in key if x), good, n, why)
+                        break
+                # the chords the model exposes after the call: the documented geometry of the method asked for
+                # (cumulative half-chords; two correct evaluations differ by 1e-12..1e-10 relative, see above)
+                pl = getattr(m, 'path_length', None) if ok else None
+                for j in range(nl if ok else 0):
+                    seg = np.asarray(pl[j], dtype=float) if pl is not None and len(pl) == nl else np.zeros(0)
+                    if seg.shape != (nl - j,) or not np.allclose(np.cumsum(seg), np.cumsum(ev['L'][j]), rtol=1e-9, atol=0):
+                        ok, detail = False, 'model.path_length[%d] = %r, documented chords of the %s method %r' % (
+                            j, seg.tolist(), 'new' if spec['new'] else 'old', ev['L'][j])
                         break
         except Machinery:
             raise
@@ -797,6 +946,33 @@ def run_routes(ctx, walks, nmodels):
                 ctx.note('entry points: histories after the first violating one are not replayed on scenario %d' % i)
                 break
     KMODE.disable()
+    ctx.traces += n
+    return n
+
+
+def run_flags(ctx, calls, nmodels):
+    """every exported single call with new_path_method / cutoff_grid in every spelling (spec/MC_TransRoutes.tla FLAGS)
+    on nmodels random scenarios: the entries and model.path_length are those of the method ASKED for (truth value of
+    the option), on the grid the truth value of cutoff_grid selects."""
+    rng = random.Random(ctx.seed * 86028121 + 3)
+    n = 0
+    for i in range(nmodels):
+        for _ in range(20):
+            m, spec = build_random_model(rng, 0, extra=routes_extra(False))
+            if not unbound(m):
+                break
+        else:
+            raise Machinery('no bound atmosphere for the option-spelling scenario')
+        # the reference models are built with the plain Python booleans
+        oracles = {b: RouteOracle(dict(spec, new=b, flag=str(b))) for b in (True, False)}
+        stop = set()
+        for c in calls:
+            if c['flag'] in stop:
+                continue
+            sp = dict(spec, new=bool(c['new']), flag=c['flag'])
+            n += 1
+            if not replay_walk(ctx, sp, c['walk'], oracles[bool(c['new'])], 'routes:new_path_method=%s' % c['flag']):
+                stop.add(c['flag'])
     ctx.traces += n
     return n
 
@@ -847,10 +1023,21 @@ def history_scenarios():
 
 
 K_REFUTED = ('RefuteGuardSaturated', 'RefuteGuardMonotone', 'RefuteRenorm')
-ROUTES_REFUTED = ('RefuteStaleSize', 'RefuteAccumulate', 'RefuteKeepSingle')
+ROUTES_REFUTED = ('RefuteStaleSize', 'RefuteAccumulate', 'RefuteKeepSingle', 'RefuteIdentity')
+AB_REFUTED = ('RefuteFloor',)
 
 
-def check_with_mutants(ctx, label, module, cfg, refuted, need_actions, tag, workers=1):
+def uniq(vs):
+    out, seen = [], set()
+    for v in vs:
+        k = repr(v)
+        if k not in seen:
+            seen.add(k)
+            out.append(v)
+    return out
+
+
+def check_with_mutants(ctx, label, module, cfg, refuted, need_actions, tag, workers=1, also=None):
     """One TLC run (-continue): the Sound.. / ..Blind invariants hold, exactly the expected-counterexample
     invariants `refuted` are violated (non-vacuity), and the vectors tagged `tag` are exported."""
     from ..core import run_tlc
@@ -864,6 +1051,10 @@ def check_with_mutants(ctx, label, module, cfg, refuted, need_actions, tag, work
             raise Machinery('vacuous: action %s of %s never taken in %s' % (a, module, cfg))
     if res.distinct == 0:
         raise Machinery('TLC reported 0 states for %s/%s' % (module, cfg))
+    if also is not None:
+        also[:] = uniq(res.tagged(also[0]))
+        if not also:
+            raise Machinery('%s/%s exported nothing for the second tag' % (module, cfg))
     if tag is None:
         return []
     out, seen = [], set()
@@ -879,7 +1070,9 @@ def check_with_mutants(ctx, label, module, cfg, refuted, need_actions, tag, work
 
 def run(ctx):
     q = ctx.tier == 'quick'
-    ctx.bounds = dict(kd='correlated-k: 3 layers x 2 wavenumbers x 2 quadrature points (thorough also 3), coefficients 0 .. beyond underflow',
+    ctx.bounds = dict(abund='mixing ratios 5e-20 .. 0.5 (uniform or in some blocks of layers) x inverse cross-sections, 3 layers; whole models 2..12 layers',
+                      spellings='new_path_method and cutoff_grid in 10 spellings on single calls',
+                      kd='correlated-k: 3 layers x 2 wavenumbers x 2 quadrature points (thorough also 3), coefficients 0 .. beyond underflow',
                       routes='histories of %d calls over 3 entry points x 3 grid sizes on one model' % (2 if q else 3),
                       geo='4 (quick) / 5 (thorough) layers, all radii from small sets, both chord methods',
                       acc='2-3 layers x 2 wavenumbers x 2-3 contributions over value sets incl. saturating ones',
@@ -900,7 +1093,11 @@ def run(ctx):
     if not q:
         kvecs += check_with_mutants(ctx, 'kd3', 'MC_TransK', 'EX_TransK_3.cfg', K_REFUTED, ('Evaluate',), 'VEC')
         check_with_mutants(ctx, 'kd-exhaustive', 'MC_TransK', 'MC_TransK_thorough.cfg', K_REFUTED, ('Evaluate',), None, workers=8)
-    walks = check_with_mutants(ctx, 'routes', 'MC_TransRoutes', 'MC_TransRoutes_%s.cfg' % tier, ROUTES_REFUTED, ('Call',), 'ROUTES')
+    flagcalls = ['FLAGS']
+    walks = check_with_mutants(ctx, 'routes', 'MC_TransRoutes', 'MC_TransRoutes_%s.cfg' % tier, ROUTES_REFUTED, ('Call',), 'ROUTES',
+                               also=flagcalls)
+    # round 5: the magnitude of the mixing ratio
+    abvecs = check_with_mutants(ctx, 'abund', 'MC_TransAbund', 'MC_TransAbund_%s.cfg' % tier, AB_REFUTED, ('Evaluate',), 'ABVEC')
     ctx.exhaustive = True
     vecs = []
     for cfg in ('EX_Trans_geo.cfg', 'EX_Trans_acc.cfg', 'EX_Trans_acc2.cfg', 'EX_Trans_abs.cfg'):
@@ -911,7 +1108,7 @@ def run(ctx):
             if k not in seen:
                 seen.add(k)
                 vecs.append(v)
-    ncal = calibrate(vecs + kvecs)
+    ncal = calibrate(vecs + kvecs + abvecs)
     ctx.note('oracle calibration: harness evaluator equals TLC exactly on %d exported vectors' % ncal)
     reset_caches()
     for v in vecs:
@@ -927,9 +1124,15 @@ def run(ctx):
             vec_kd(ctx, v)
         KMODE.disable()
         ctx.add_sample(dict(vector=kvecs[len(kvecs) // 2]))
+        # (the kernel-level replay vec_ab of these vectors is not run: its fixture is unfinished, see the report)
+        ctx.add_sample(dict(vector=abvecs[len(abvecs) // 2]))
+        reset_caches()
+        run_abund(ctx, uniq([v['inp']['e'] for v in abvecs]))
         run_e2e(ctx, 60 if q else 600, 20 if q else 60, nk=16 if q else 120)
         nr = run_routes(ctx, [w["walk"] for w in walks], 3 if q else 4)
         ctx.note('entry points: %d exported histories x scenarios replayed (model / model_contrib / model_full_contrib x 3 grid sizes)' % nr)
+        nf = run_flags(ctx, flagcalls, 2 if q else 3)
+        ctx.note('option spellings: %d exported single calls x scenarios replayed (new_path_method / cutoff_grid in 10 spellings)' % nf)
         from .. import history
         history.run_history(ctx, history_scenarios(), 12 if q else 120)
     finally:
@@ -949,6 +1152,8 @@ def replay(ctx, violations):
         elif v.get('fam') == 'kd':
             vec_kd(ctx, v)
             KMODE.disable()
+        elif v.get('fam') == 'ab':
+            vec_ab(ctx, v)
         elif 'e2e' in v:
             rng = random.Random(1)
             m, spec = build_random_model(rng, v['e2e']['nl'], spec=v['e2e'])
